@@ -210,3 +210,17 @@ CHECKS.update({
         "note": "Trusted: per-command outcome parsed from debugfs's own messages (a refused set leaves the model unchanged); ref/refext4.py xattr parser.",
     },
 })
+
+CHECKS.update({
+    "C18": {
+        "level": "exploration",
+        "technique": SIM + "mke2fs -d on a seeded host tree with the simulated source-file layer injecting short reads and refusing SEEK_DATA / FIEMAP; image compared with an lstat walk of the source by the independent reader; reproducibility under another simulated clock and random stream; debugfs rdump compared with the source",
+        "text": ("Seeded host trees (nested directories, files from empty to multi-extent, sparse files with aligned and unaligned holes, short and long "
+                 "symlinks, hard-link groups, fifos, sockets, device nodes, every permission bit, owners up to 100000, mtimes 1970-2038, user "
+                 "xattrs) are stored with mke2fs -d.  The independent reader's view must equal the source in names, types, sizes, content hashes, "
+                 "targets, link groups, modes, owners, mtimes, device numbers and xattrs, source holes stay unmapped, e2fsck -fn is clean; a second "
+                 "build under another simulated clock and random stream is byte-identical; debugfs rdump returns the same names, bytes, targets, "
+                 "rwx bits and owners.  Source reads are normal, short (legal for read(2)), or without SEEK_DATA / FIEMAP.  Sampling."),
+        "note": "Trusted: the orchestrator's own lstat/read/SEEK_HOLE walk of the source; ref/refext4.py. The hole oracle is one-directional (zero blocks may become holes by design).",
+    },
+})
